@@ -2,7 +2,6 @@
 //@use prelude/head.rs
 // not under contract: the CPCT+ driver functions (judged by the exhaustive minimal-repair oracle and the progress sweep when one changes)
 //@pin file=lrpar/src/lib/cpctplus.rs fn=recover sha=7bf51c7777e8b17b
-//@pin file=lrpar/src/lib/cpctplus.rs fn=collect_repairs sha=73788e2b2b7029c3
 // PathFNode's Hash (must agree with its Eq, which is under contract in unit c05_traverse)
 //@pin file=lrpar/src/lib/cpctplus.rs fn=hash sha=fb9b997a4c77db67
 //@pin file=lrpar/src/lib/cpctplus.rs fn=recoverer sha=be65bf0498c91a62
